@@ -187,6 +187,64 @@ BENIGN = [
     ("B17-saturated-ge", M, lit("return call_count == max_calls;", "return call_count >= max_calls;"), ["C03"], "core"),
     ("B18-unlink-before-report-in-dtor", M, lit("      if (is_unfulfilled())\n      {\n        report_missed(\"Unfulfilled expectation\");\n      }\n      this->unlink();\n      sequences->retire();", "      const bool missed = is_unfulfilled();\n      this->unlink();\n      sequences->retire();\n      if (missed)\n      {\n        report_missed(\"Unfulfilled expectation\");\n      }"), ["C04", "C12", "C01"], "core"),
     ("B19-find-candidate-renamed", M, lambda t: t.replace("first_match", "best").replace("lowest_cost", "best_cost"), ["C02", "C01"], "core"),
+    ("B21-saturated-flag-renamed", M, lambda t: t.replace("saturated_match", "found_saturated"), ["C15", "C03", "C04"], "core"),
+    ("B22-deathwatched-branches-swapped", L, lit("""  if (trompeloeil_lifetime_monitor)
+  {
+    trompeloeil_lifetime_monitor->notify();
+    return;
+  }
+  std::ostringstream os;
+  os << "Unexpected destruction of "
+     << TROMPELOEIL_TYPE_ID_NAME(T) << "@" << this << '\\n';
+  send_report<specialized>(severity::nonfatal,
+                           location{},
+                           os.str());""", """  if (!trompeloeil_lifetime_monitor)
+  {
+    std::ostringstream os;
+    os << "Unexpected destruction of "
+       << TROMPELOEIL_TYPE_ID_NAME(T) << "@" << this << '\\n';
+    send_report<specialized>(severity::nonfatal,
+                             location{},
+                             os.str());
+  }
+  else
+  {
+    trompeloeil_lifetime_monitor->notify();
+  }"""), ["C13", "C12", "C15", "C14"], "core"),
+    ("B24-sentry-restore-order", M, lit("      os.flags(flags);\n      os.fill(fill);\n      os.width(width);", "      os.width(width);\n      os.fill(fill);\n      os.flags(flags);"), ["C18"], "printing"),
+    ("B25-range-guard-respelled", R, lambda t: t.replace("      if (it == e) return false;", "      if (!(it != e)) return false;"), ["C11"], "matchers"),
+    ("B26-any-of-or-assign", "include/trompeloeil/matcher/set_predicate.hpp", lit("(any_true = any_true || trompeloeil::param_matches(compare, std::ref(t)))...\n    });\n    return any_true;", "(any_true = trompeloeil::param_matches(compare, std::ref(t)) || any_true)...\n    });\n    return any_true;"), ["C10"], "matchers"),
+    ("B27-yield-loop-with-iterator", CO, lit("""        for (auto & e : *yields)
+        {
+          co_yield e.expr(params);
+        }""", """        for (auto it = yields->begin(); it != yields->end(); ++it)
+        {
+          co_yield it->expr(params);
+        }"""), ["C20"], "coro"),
+    ("B28-is-satisfied-swapped-operands", M, lit("return call_count >= min_calls;", "return min_calls <= call_count;"), ["C03", "C07"], "core"),
+    ("B29-lock-name-changed", M, lambda t: t.replace("auto lock = get_lock();", "auto guard_ = get_lock();"), ["C12", "C05"], "core"),
+    ("B30-cost-loop-index", S, lit("""    unsigned sequence_cost = 0U;
+    for (auto const& e : matchers)
+    {
+      if (&e == m) return sequence_cost;
+      if (!e.is_satisfied())
+      {
+        return ~0U;
+      }
+      ++sequence_cost;
+    }
+    return ~0U;""", """    unsigned sequence_cost = 0U;
+    for (auto const& e : matchers)
+    {
+      if (&e == m) return sequence_cost;
+      if (e.is_satisfied())
+      {
+        ++sequence_cost;
+        continue;
+      }
+      return ~0U;
+    }
+    return ~0U;"""), ["C05", "C02"], "core"),
     ("B20-notify-retire-unconditional", L, lit("    if (sequences->is_satisfied())\n    {\n      sequences->retire_predecessors();\n    }", "    sequences->retire_predecessors();"), ["C05", "C13", "C06"], "core"),
 ]
 
